@@ -2,7 +2,7 @@
    ExtrOcamlBasic only: bool, option, unit, list, prod, sumbool, sumor map to OCaml's; N/positive/nat
    stay Coq datatypes. *)
 From Coq Require Import NArith List Bool Extraction ExtrOcamlBasic.
-From MT Require Import Lib Types Charsets Tables Screen Parser Utf8 World Spec Obs Stmt.
+From MT Require Import Lib Types Charsets Tables Screen Parser Utf8 World Safe Spec Obs Stmt.
 Extraction Language OCaml.
 Extraction "mt.ml"
   Screen.step Screen.init Screen.display Screen.cellv Screen.default_char
@@ -13,4 +13,5 @@ Extraction "mt.ml"
   Stmt.abs Stmt.aeqb Stmt.spec_ok Stmt.spec_ok_nd Stmt.dirty_ok Stmt.display_ok Stmt.dirty_covers Stmt.a_rest_eqb
   Tables.translate Tables.palette Tables.text_table Tables.fg_ansi Tables.bg_ansi Tables.fg_aixterm Tables.bg_aixterm
   Tables.default_modes Tables.special_ctrls Tables.basic_ctrls Tables.allowed_in_csi Tables.osc_terminators
+  Safe.step_ok Safe.init_ok Safe.wrun_ok
   Types.s2n Lib.nseteq Lib.leqb.
